@@ -83,6 +83,8 @@ type scen struct {
 	fullSyncAlt bool
 	resetIdx    int
 	curHole     int
+	mainTip     common.Hash
+	mainNextIdx int
 	ref         *chainfx.Node
 }
 
@@ -204,6 +206,11 @@ type stream struct {
 	window [2]int         // indices into the victim's op list that are swept
 	fsAt   int            // kind fastsync: index in main of the snapshot block the victim fast-syncs to
 	ref    *chainfx.Node
+	// kind fork: the first proposer (stays on the abandoned branch), one more block of that branch (fed to a node that
+	// restarts on its tip: the never-switched reference accepts it), and whether the abandoned range changes the identity state
+	mainNode                *chainfx.Node
+	mainNext                *types.Block
+	abandonedIdentityUpdate bool
 }
 
 func tweakFor(kind string) func(*config.Config) {
@@ -312,13 +319,35 @@ func buildStream(cs c09case, quick bool) (*stream, error) {
 		}
 		h2 := chainfx.NewHistory(w, n2, rand.New(rand.NewSource(cs.Seed+7777)), chainfx.HistoryOpts{TxPerBlock: 4})
 		mainLen := 1 + r.Intn(3)
-		for b := 1; b <= mainLen; b++ {
+		if r.Intn(2) == 0 {
+			// quiet abandoned branch: no transactions, so that (unless a pending status switch fires) the identity root
+			// is the same at the reset target and at the abandoned tip
+			h.O.TxPerBlock = 0
+		} else {
+			// an identity update inside the abandoned range: a validated user kills its identity
+			for _, i := range []int{3, 5, 1, 7} {
+				if h.N.App.ValidatorsCache.IsValidated(w.Addrs[i]) {
+					if _, err := h.S.Send(h.N, i, &types.Transaction{Type: types.KillTx}); err == nil {
+						break
+					}
+				}
+			}
+		}
+		for b := 1; b <= mainLen+1; b++ {
 			blk, err := step(h, pre+b)
 			if err != nil {
 				return nil, err
 			}
+			if b > mainLen {
+				st.mainNext = blk
+				break
+			}
 			st.main = append(st.main, blk)
+			if d := h.N.Chain.GetIdentityDiff(blk.Height()); d != nil && !d.Empty() {
+				st.abandonedIdentityUpdate = true
+			}
 		}
+		st.mainNode = h.N
 		forkLen := mainLen + 1 + r.Intn(2)
 		for b := 1; b <= forkLen; b++ {
 			blk, err := step(h2, pre+100+b)
@@ -469,8 +498,11 @@ func (s *scen) plan(n *chainfx.Node, i int) []int {
 		// the rest of the first branch, then ResetTo + the longer fork
 		for j := i; j < len(s.ops); j++ {
 			o := s.ops[j]
-			if j < s.resetIdx && o.kind == "ins" && o.blk.Height() <= head.Height() {
+			if o.declOnly || (j < s.resetIdx && o.kind == "ins" && o.blk.Height() <= head.Height()) {
 				continue
+			}
+			if j == s.resetIdx && s.mainNextIdx >= 0 {
+				p = append(p, s.mainNextIdx) // one more block of the first branch before the switch
 			}
 			p = append(p, j)
 		}
@@ -492,11 +524,17 @@ func (s *scen) plan(n *chainfx.Node, i int) []int {
 		}
 		return p
 	}
-	// head on the abandoned branch: the fork switch starts over (ResetTo + fork blocks)
+	// head on the abandoned branch: first the next block of that branch when the node stands on its tip (the node that
+	// never switched accepts it), then the fork switch starts over (ResetTo + fork blocks)
 	for j, o := range s.ops {
 		if o.kind == "reset" {
+			if s.mainNextIdx >= 0 && head.Hash() == s.mainTip {
+				p = append(p, s.mainNextIdx)
+			}
 			for k := j; k < len(s.ops); k++ {
-				p = append(p, k)
+				if !s.ops[k].declOnly {
+					p = append(p, k)
+				}
 			}
 			return p
 		}
@@ -536,6 +574,9 @@ func (s *scen) cutPoints(o *vop, quick bool, r *rand.Rand) []int {
 }
 
 func runScenario(c *hx.Ctx, cs c09case) error {
+	if cs.Kind == "snapexport" {
+		return runSnapExport(c, cs)
+	}
 	quick := c.Tier != "thorough"
 	defer os.RemoveAll("./testdata")
 	defer os.RemoveAll("./testdata2")
@@ -564,6 +605,7 @@ func runScenario(c *hx.Ctx, cs c09case) error {
 	}
 	s.refEnd = endState(st.ref)
 	s.resetIdx = -1
+	s.mainNextIdx = -1
 	s.ref = st.ref
 
 	// victim replica over a recording database
@@ -589,6 +631,11 @@ func runScenario(c *hx.Ctx, cs c09case) error {
 		for _, b := range st.fork {
 			s.ops = append(s.ops, &vop{kind: "ins", blk: b})
 		}
+		s.mainTip = st.main[len(st.main)-1].Hash()
+		s.mainNextIdx = len(s.ops)
+		s.ops = append(s.ops, &vop{kind: "ins", blk: st.mainNext, declOnly: true})
+		s.known[st.mainNext.Hash()] = st.mainNext
+		c.Hit(fmt.Sprintf("fork:abandoned-range-identity-update=%v", st.abandonedIdentityUpdate))
 	case "fastsync":
 		// the victim follows the first blocks normally, fast-syncs to the snapshot block, then follows again
 		pre := 3
@@ -613,7 +660,11 @@ func runScenario(c *hx.Ctx, cs c09case) error {
 	for i, o := range s.ops {
 		if o.declOnly {
 			o.descr = fmt.Sprintf("AddBlock height %d (%s)", o.blk.Height(), blockKind(o.blk))
-			diff := st.ref.Chain.GetIdentityDiff(o.blk.Height())
+			src := st.ref
+			if i == s.mainNextIdx && st.mainNode != nil {
+				src = st.mainNode
+			}
+			diff := src.Chain.GetIdentityDiff(o.blk.Height())
 			c.Line("decl "+s.insLine(o.blk, diff != nil && !diff.Empty(), false, nil), "ok")
 			continue
 		}
@@ -811,6 +862,28 @@ func (s *scen) oneCut(i int, o *vop, k int, hole int) {
 			o.descr, k, len(o.events), class, head.Height(), head.Root(), head.IdentityRoot(), n.App.State.Root(), n.App.IdentityState.Root()), i, k, class)
 		return
 	}
+	// the state at the head's height must be loadable the way block validation / RPC load it
+	for _, ld := range []struct {
+		what string
+		load func(uint64) error
+	}{{"ForCheck", func(h uint64) error { _, e := n.App.ForCheck(h); return e }},
+		{"Readonly", func(h uint64) error { _, e := n.App.Readonly(h); return e }}} {
+		what, load := ld.what, ld.load
+		var lerr error
+		func() {
+			defer func() {
+				if r := recover(); r != nil {
+					lerr = fmt.Errorf("panic: %v", r)
+				}
+			}()
+			lerr = load(head.Height())
+		}()
+		if lerr != nil {
+			s.fail("C09:state-at-head-not-loadable", fmt.Sprintf("%s cut after %d of %d writes (next write: %s): the node restarted at height %d with head roots equal to the loaded roots, but AppState.%s(%d) fails: %v (every next block will be refused)",
+				o.descr, k, len(o.events), class, head.Height(), what, head.Height(), firstLine(lerr.Error())), i, k, class)
+			return
+		}
+	}
 	_, isKnown := s.known[head.Hash()]
 	isKnown = isKnown || s.onTgt[head.Hash()]
 	if !o.allowed[head.Height()] || !isKnown {
@@ -926,10 +999,10 @@ func init() {
 			return runScenario(c, wrap.Replay)
 		}
 		c.Rep.Rule = "scenarios = real chain histories followed by a victim replica over a crash-injecting database; kinds: mixed (plain / identity-update / snapshot-flag blocks with all ordinary tx kinds), epoch (validation ceremony, the epoch-finishing block and its neighbours), retention (>100 blocks: tree-version pruning batches), fork (ResetTo + re-apply of a longer fork), fastsync (preliminary identity state, header chain, snapshot import, AtomicSwitchToPreliminary, clearing of the old trees); every write event of the swept operations is a cut point (thorough: all; quick: all class boundaries + sample); per cut: real start-up on the surviving store, model comparison, continuation with the same next blocks, end-state comparison; distinct = (scenario, operation, cut index)"
-		kinds := []string{"mixed", "fork", "epoch", "retention", "fastsync", "mixed", "fork"}
-		n := c.Scale(28, 210)
+		kinds := []string{"mixed", "fork", "epoch", "retention", "fastsync", "mixed", "fork", "snapexport"}
+		n := c.Scale(32, 240)
 		if c.Tier == "search" {
-			n = 42 // other seeds, same cut policy as quick (a scenario costs ~1 s; ten times quick is not needed to find a cut)
+			n = 48 // other seeds, same cut policy as quick (a scenario costs ~1 s; ten times quick is not needed to find a cut)
 		}
 		for i := 0; i < n; i++ {
 			cs := c09case{Seed: c.Seed*1000 + int64(i), Kind: kinds[i%len(kinds)], Op: -1, Cut: -1, All: c.Tier == "thorough"}
